@@ -194,6 +194,32 @@ fn respond(line: &str) -> String {
             };
             format!("{} {}", if out.is_empty() { "-" } else { &out }, fin)
         }
+        // pretty-line <debug> <debug_locks> <debug_pids> <verbose> <xtrace> <log> <depth> <color> <line without newline>
+        ["pretty-line", d, dl, dp, v, x, lg, depth, color, l] => {
+            let line = match dec(l).and_then(|b| String::from_utf8(b).ok()) {
+                Some(l) => l,
+                None => return "bad-op".into(),
+            };
+            match (d.parse::<i32>(), v.parse::<i32>(), x.parse::<i32>(), depth.parse::<usize>()) {
+                (Ok(d), Ok(v), Ok(x), Ok(depth)) => {
+                    if line.contains('\n') || depth > 4096 {
+                        return "bad-op".into();
+                    }
+                    let b = |s: &str| s == "1";
+                    enc(&redo::verif::pretty_line(d, b(dl), b(dp), v, x, b(lg), depth, b(color), &format!("{}\n", line)))
+                }
+                _ => "bad-op".into(),
+            }
+        }
+        ["raw-line", l] => match dec(l).and_then(|b| String::from_utf8(b).ok()) {
+            Some(line) => {
+                if line.contains('\n') {
+                    return "bad-op".into();
+                }
+                enc(&redo::verif::raw_line(&format!("{}\n", line)))
+            }
+            None => "bad-op".into(),
+        },
         ["valid-line", x] => match dec(x).and_then(|b| String::from_utf8(b).ok()) {
             Some(x) => redo::verif::is_valid_log_line(&x).to_string(),
             None => "bad-op".into(),
